@@ -45,7 +45,7 @@ from corr import logix_gen as lg
 # recording layer (installed once per process)
 # --------------------------------------------------------------------------------------------------
 REC = {"on": False, "events": [], "lock": threading.Lock(), "ctr": itertools.count(), "yield": True,
-       "installed": False}
+       "installed": False, "fuzz": 0.0, "nap": 0.001}
 TL = threading.local()
 
 
@@ -145,10 +145,67 @@ def install():
             if REC["on"]:
                 stamp("S", tuple(addr) if addr else None)
 
+    install_fuzzer([logix.Logix.request, logix.Logix.reply_elements, logix.process, logix.setup,
+                    device.Attribute.__getitem__, device.Attribute.__setitem__, device.Attribute._validate_key,
+                    device.Object.request, device.Message_Router.request, device.Message_Router.route,
+                    device.Connection_Manager.request, device.state_multiple_service.terminate,
+                    device.resolve, device.lookup, device.resolve_tag,
+                    automata.dfa_post.__exit__, automata.dfa_post.post_process_closure]
+                   + [getattr(m_, "request") for m_ in [__import__("cpppo.server.enip.ucmm", fromlist=["UCMM"]).UCMM]])
     REC["mods"] = dict(cpppo=cpppo, automata=automata, device=device, logix=logix, parser=parser, client=client,
                        enip_main=enip_main, RecAttribute=RecAttribute, rec_process=rec_process)
     REC["installed"] = True
     return REC["mods"]
+
+
+def install_fuzzer(funcs):
+    """Schedule fuzzing: at every new source line executed inside the request-handling functions `funcs` (and
+    the functions nested in them) the running thread gives the GIL away with probability REC["fuzz"].  This
+    only adds interleavings of the request-handling threads (the property quantifies over all of them); it
+    never splits a single list operation and never bypasses a lock."""
+    mon = getattr(sys, "monitoring", None)
+    if mon is None:
+        return
+    tool = mon.PROFILER_ID
+    try:
+        mon.use_tool_id(tool, "c09-schedule-fuzzer")
+    except ValueError:
+        return
+    rnd = random.Random(0xC09).random
+
+    import linecache
+
+    def on_line(code, line):
+        key = (code, line)
+        skip = boring.get(key)
+        if skip is None:                # the parse loops (`for m,s in engine: pass`) run once per input symbol:
+            txt = linecache.getline(code.co_filename, line).strip()   # no scheduling decision of interest there
+            skip = boring[key] = txt == "pass" or txt.startswith("for m,s in engine")
+        if skip:
+            return mon.DISABLE
+        p = REC["fuzz"]
+        if p and REC["on"]:
+            r = rnd()
+            if r < p:                   # half the time just hand the GIL over, half the time stay away for a while
+                time.sleep(0 if r < p / 2 else REC["nap"])
+
+    boring = {}
+    mon.register_callback(tool, mon.events.LINE, on_line)
+    seen = set()
+
+    def add(code):
+        if code in seen:
+            return
+        seen.add(code)
+        mon.set_local_events(tool, code, mon.events.LINE)
+        for c in code.co_consts:
+            if hasattr(c, "co_code"):
+                add(c)
+
+    for f in funcs:
+        f = getattr(f, "__func__", f)
+        if hasattr(f, "__code__"):
+            add(f.__code__)
 
 
 # --------------------------------------------------------------------------------------------------
@@ -376,6 +433,7 @@ class C09(Suite):
                 rng.choice(raws)["chaos"] = rng.choice(CHAOS)
         return {"budget": rng.choice([488, 488, 488, 40, 12]), "tags": tags, "sessions": sessions,
                 "si": rng.choice([1e-6, 1e-6, 1e-5, 1e-4, 5e-3]), "yield": rng.random() < 0.8,
+                "fuzz": rng.choice([0.0, 0.005, 0.01, 0.02]), "nap": rng.choice([0.003, 0.01]),
                 "seed": rng.randrange(1 << 30)}
 
     def pair_cases(self):
@@ -404,7 +462,7 @@ class C09(Suite):
                     sess.append({"client": "raw", "chaos": None,
                                  "frames": [shapes(sid)[sh](k) for k in range(5)]})
                 yield {"budget": 488, "tags": [dict(tag)], "sessions": sess, "si": 1e-6, "yield": True,
-                       "seed": a * n + b}
+                       "fuzz": [0.0, 0.01, 0.02][(a + b) % 3], "nap": 0.005, "seed": a * n + b}
 
     def cases(self, tier, rng):
         for c in self.pair_cases():
@@ -507,6 +565,68 @@ class C09(Suite):
         except Exception as exc:  # noqa
             out["error"] = type(exc).__name__ + ":" + str(exc)[:120]
 
+    def run_clients(self, case, port, encoded):
+        """the client sessions run in a forked child process (threads there), so that the simulator's threads
+        have this interpreter to themselves and clients and server run truly in parallel"""
+        rd, wr = os.pipe()
+        pid = os.fork()
+        if pid == 0:
+            code = 0
+            try:
+                os.close(rd)
+                REC["on"] = False
+                REC["fuzz"] = 0.0
+                sys.setswitchinterval(0.005)
+                outs = [{"replies": []} for _ in case["sessions"]]
+                barrier = threading.Barrier(len(case["sessions"]))
+                ths = []
+                for sid, sess in enumerate(case["sessions"]):
+                    if sess["client"] == "raw":
+                        t = threading.Thread(target=self.raw_session,
+                                             args=(port, sid, sess, encoded[sid], outs[sid], barrier), daemon=True)
+                    else:
+                        t = threading.Thread(target=self.cpppo_session, args=(port, sid, sess, outs[sid], barrier),
+                                             daemon=True)
+                    ths.append(t)
+                for t in ths:
+                    t.start()
+                hung = False
+                for t in ths:
+                    t.join(timeout=60)
+                    hung = hung or t.is_alive()
+                data = json.dumps({"outs": outs, "hung": hung}).encode()
+                with os.fdopen(wr, "wb") as f:
+                    f.write(data)
+            except BaseException:  # noqa
+                code = 1
+            finally:
+                os._exit(code)
+        os.close(wr)
+        buf = b""
+        deadline = time.time() + 100
+        import select
+        with os.fdopen(rd, "rb", buffering=0) as f:
+            while True:
+                left = deadline - time.time()
+                if left <= 0:
+                    break
+                r, _, _ = select.select([f], [], [], min(left, 1.0))
+                if r:
+                    d = f.read(1 << 16)
+                    if not d:
+                        break
+                    buf += d
+        try:
+            if time.time() >= deadline:
+                os.kill(pid, 9)
+            os.waitpid(pid, 0)
+        except OSError:
+            pass
+        if not buf:
+            return [{"replies": [], "error": "client process failed"} for _ in case["sessions"]], True
+        res = json.loads(buf.decode())
+        return res["outs"], res["hung"]
+
     def impl(self, case):
         m = self.mods if hasattr(self, "mods") else install()
         self.mods = m
@@ -526,25 +646,14 @@ class C09(Suite):
             th, ctl = self.start_server(case)
             port = ctl["address"][1]
             logix.Logix.MAX_BYTES = case["budget"]
-            outs = [{"replies": []} for _ in case["sessions"]]
-            barrier = threading.Barrier(len(case["sessions"]))
-            ths = []
-            for sid, sess in enumerate(case["sessions"]):
-                if sess["client"] == "raw":
-                    t = threading.Thread(target=self.raw_session, args=(port, sid, sess, encoded[sid], outs[sid], barrier))
-                else:
-                    t = threading.Thread(target=self.cpppo_session, args=(port, sid, sess, outs[sid], barrier))
-                ths.append(t)
             REC["yield"] = bool(case["yield"])
+            REC["fuzz"] = float(case.get("fuzz", 0.0))
+            REC["nap"] = float(case.get("nap", 0.001))
             sys.setswitchinterval(case["si"])
             REC["on"] = True
-            for t in ths:
-                t.start()
-            hung = False
-            for t in ths:
-                t.join(timeout=60)
-                hung = hung or t.is_alive()
+            outs, hung = self.run_clients(case, port, encoded)
             REC["on"] = False
+            REC["fuzz"] = 0.0
             sys.setswitchinterval(saved_si)
             time.sleep(0.01)
             events = list(REC["events"])
@@ -570,6 +679,12 @@ class C09(Suite):
             a = device.resolve_tag(t["name"])
             addrs[t["name"]] = list(a) if a else None
         obs["addrs"] = addrs
+        missing = [n for n, a in addrs.items() if a is None or device.lookup(*a) is None]
+        if missing:
+            obs["missing_tags"] = missing
+            obs["sessions"] = [{"replies": o["replies"]} for o in outs]
+            obs["replies_line"], obs["dump"] = "-", "-"
+            return obs
         parts = []
         for t in case["tags"]:
             c, i, a = addrs[t["name"]]
@@ -739,7 +854,7 @@ class C09(Suite):
 
     def model_line(self, case):
         obs = case.get("obs")
-        if not obs:
+        if not obs or obs.get("missing_tags"):
             return "conc-no-observation"
         return f"conc {case['budget']} {obs['tagline']} {obs['prog']} {obs['trace'] or '-'}"
 
@@ -753,6 +868,8 @@ class C09(Suite):
         obs = case.get("obs")
         if not obs:
             return "no observation"
+        if obs.get("missing_tags"):
+            return f"tags {obs['missing_tags']} do not exist after the run (one-time setup raced)"
         if obs["hung"]:
             return "a session did not finish within 60 s (deadlock or lost reply)"
         # O1: every session got exactly its own replies, in order
@@ -781,6 +898,62 @@ class C09(Suite):
         handles = [so["handle"] for so in obs["sessions"]]
         if len(set(handles)) != len(handles) or not all(handles):
             return f"session handles are not distinct: {handles}"
+        # O4 / O5 are checked from the programs and the replies alone (no stamps, no model)
+        spec = lg.ArraySpec(case, obs["addrs"])
+        dump = lg.parse_dump(obs["dump"])
+        siz_of = {a: lc.SIZES[spec.ty[a]] for a in spec.arr}
+        writes, reads = [], []          # accepted requests: (sid, k, j, addr, start, [encoded element values])
+        flat = []
+        for sid, sess in enumerate(case["sessions"]):
+            for k, fr in enumerate(sess["frames"]):
+                rep = lg.parse_reply(bytes.fromhex(obs["sessions"][sid]["replies"][k]["cip"]))
+                mreps = [rep] if fr["op"] != "mu" else [lg.parse_reply(p) for p in lg.split_multiple(rep["body"])[0]]
+                for j, (mm, mr) in enumerate(zip(members_of(fr), mreps)):
+                    flat.append((sid, k, j, mm, mr))
+        for sid, k, j, mm, mr in flat:
+            if mr is None or mr["status"] not in (0, 6):
+                continue
+            a, elem = spec.resolve(mm["path"])
+            ty = spec.ty[a]
+            start = elem + (mm.get("off", 0) // siz_of[a] if mm["op"] in ("rf", "wf") else 0)
+            if mm["op"] in ("wt", "wf"):
+                reqty = lc.CODE2NAME[mm["ty"]]
+                writes.append((sid, k, j, a, start, [spec.enc(ty, v, reqty) for v in mm["vals"]]))
+            else:
+                reads.append((sid, k, j, a, start, lg.split_elems(ty, mr["body"][2:]) or []))
+        # O4: a multi-element read never observes part of a multi-element write: when every accepted write that
+        #     touches the elements read covers all of them with one value, the elements read are equal
+        for sid, k, j, a, start, elems in reads:
+            end = start + len(elems)
+            if len(elems) < 2:
+                continue
+            whole = True
+            for (_s, _k, _j, wa, ws, wv) in writes:
+                if wa != a or ws >= end or ws + len(wv) <= start:
+                    continue
+                if not (ws <= start and end <= ws + len(wv)) or len(set(wv[start - ws:end - ws])) != 1:
+                    whole = False
+                    break
+            if whole and len(set(elems)) > 1:
+                return (f"torn read: session {sid} request #{k}.{j} read elements [{start},{end}) at {a} = "
+                        f"{[e.hex() for e in elems]} although every write touching them writes one value over all of them")
+        # O5: an element that only one session writes holds that session's last accepted value at the end
+        for a in spec.arr:
+            owner, lastv = {}, {}
+            for (sid, _k, _j, wa, ws, wv) in writes:       # in each session's own program order
+                if wa != a:
+                    continue
+                for q, v in enumerate(wv):
+                    owner.setdefault(ws + q, set()).add(sid)
+                    lastv[(ws + q, sid)] = v
+            got = dump.get(a) or b""
+            sz = siz_of[a]
+            for e, who in owner.items():
+                if len(who) == 1:
+                    sid = next(iter(who))
+                    if got[e * sz:(e + 1) * sz] != lastv[(e, sid)]:
+                        return (f"lost write: element {e} at {a} is written only by session {sid}, whose last accepted "
+                                f"value is {lastv[(e, sid)].hex()}, but it holds {got[e * sz:(e + 1) * sz].hex()}")
         # O6: lock exclusion, O3': lock discipline
         if obs["excl"]:
             return "two threads inside one shared parser: " + obs["excl"][0]
@@ -828,53 +1001,6 @@ class C09(Suite):
             if dump.get(addr) != b"".join(arr):
                 return (f"final state of {addr} is {dump.get(addr).hex() if dump.get(addr) else None}, the sequential "
                         f"order of all requests gives {b''.join(arr).hex()}")
-        # O4 / O5 are checked from the programs and the replies alone (no stamps, no model)
-        siz_of = {a: lc.SIZES[spec.ty[a]] for a in spec.arr}
-        writes, reads = [], []          # accepted requests: (sid, k, j, addr, start, [encoded element values])
-        for _key, sid, k, j, mm, mr in sorted(hist, key=lambda h: (h[1], h[2], h[3])):
-            if mr is None or mr["status"] not in (0, 6):
-                continue
-            a, elem = spec.resolve(mm["path"])
-            ty = spec.ty[a]
-            start = elem + (mm.get("off", 0) // siz_of[a] if mm["op"] in ("rf", "wf") else 0)
-            if mm["op"] in ("wt", "wf"):
-                reqty = lc.CODE2NAME[mm["ty"]]
-                writes.append((sid, k, j, a, start, [spec.enc(ty, v, reqty) for v in mm["vals"]]))
-            else:
-                reads.append((sid, k, j, a, start, lg.split_elems(ty, mr["body"][2:]) or []))
-        # O4: a multi-element read never observes part of a multi-element write: when every accepted write that
-        #     touches the elements read covers all of them with one value, the elements read are equal
-        for sid, k, j, a, start, elems in reads:
-            end = start + len(elems)
-            if len(elems) < 2:
-                continue
-            whole = True
-            for (_s, _k, _j, wa, ws, wv) in writes:
-                if wa != a or ws >= end or ws + len(wv) <= start:
-                    continue
-                if not (ws <= start and end <= ws + len(wv)) or len(set(wv[start - ws:end - ws])) != 1:
-                    whole = False
-                    break
-            if whole and len(set(elems)) > 1:
-                return (f"torn read: session {sid} request #{k}.{j} read elements [{start},{end}) at {a} = "
-                        f"{[e.hex() for e in elems]} although every write touching them writes one value over all of them")
-        # O5: an element that only one session writes holds that session's last accepted value at the end
-        for a in spec.arr:
-            owner, lastv = {}, {}
-            for (sid, _k, _j, wa, ws, wv) in writes:       # in each session's own program order
-                if wa != a:
-                    continue
-                for q, v in enumerate(wv):
-                    owner.setdefault(ws + q, set()).add(sid)
-                    lastv[(ws + q, sid)] = v
-            got = dump.get(a) or b""
-            sz = siz_of[a]
-            for e, who in owner.items():
-                if len(who) == 1:
-                    sid = next(iter(who))
-                    if got[e * sz:(e + 1) * sz] != lastv[(e, sid)]:
-                        return (f"lost write: element {e} at {a} is written only by session {sid}, whose last accepted "
-                                f"value is {lastv[(e, sid)].hex()}, but it holds {got[e * sz:(e + 1) * sz].hex()}")
         # O7: a malformed frame ends (only) its own session and touches no storage
         for sid, sess in enumerate(case["sessions"]):
             if sess.get("chaos"):
@@ -908,7 +1034,7 @@ class C09(Suite):
     def conflicts(self, case):
         """requests that were in flight together with a conflicting request of another session"""
         obs = case.get("obs")
-        if not obs:
+        if not obs or "frames" not in obs:
             return []
         items = []
         for sid, fl in enumerate(obs["frames"]):
@@ -938,7 +1064,7 @@ class C09(Suite):
         self._stats["requests"] = self._stats.get("requests", 0) + reqs
         return (f"sessions={n} bundles={'y' if any(fr['op'] == 'mu' for s in case['sessions'] for fr in s['frames']) else 'n'}"
                 f" chaos={'y' if any(s.get('chaos') for s in case['sessions']) else 'n'}"
-                f" si={case['si']:g} access-order-switches={swb}")
+                f" si={case['si']:g} fuzz={case.get('fuzz', 0):g} access-order-switches={swb}")
 
     def shrink(self, case):
         ss = case["sessions"]
